@@ -3,6 +3,9 @@
   * `step_flag` : the callback returns `Interrupt` exactly when a terminal event reached its count in this callback.
   * `eventPhase_fired_last_sample`, `processEvs_fired` : then the event point (time, state) is the final sample.
   * `processEvs_prefix` : events sorted before it in the same step are kept, those after it are not recorded.
+  * `processEvs_stops_at_first` : the stop is at the *first* event of the step whose function reaches its count once recorded; an
+    occurrence of a counted terminal event (`terminal_count(n)`, n ≥ 2) that does not reach the count hides nothing after it, and
+    without an interrupt every located event of the step is recorded.
   * `terminalSamples_tEvents`, `dueBeforeEvent_tEvents` : reporting the requested times that precede the event does
     not touch the event lists.
   The solver side (Interrupt ⇒ UserInterrupt, no further call) is C19.
